@@ -81,7 +81,10 @@ fn run_case(f: &[String]) -> String {
     match f[0].as_str() {
         "W" => {
             let old = parse_ins(&f[1]); let new = parse_ins(&f[2]);
-            for x in split_list(&f[3], ",") { let (k, v) = x.split_once('=').unwrap(); std::fs::write(layer.join(os(&unhex(k).unwrap())), unhex(v).unwrap()).unwrap(); }
+            for x in split_list(&f[3], ",") { let (k, v) = x.split_once('=').unwrap(); let p = layer.join(os(&unhex(k).unwrap()));
+                // `@` = an unrelated directory (empty, or `@child:content` holding one file)
+                if let Some(rest) = v.strip_prefix('@') { std::fs::create_dir(&p).unwrap(); if let Some((c, b)) = rest.split_once(':') { std::fs::write(p.join(os(&unhex(c).unwrap())), unhex(b).unwrap()).unwrap(); } }
+                else { std::fs::write(p, unhex(v).unwrap()).unwrap(); } }
             let names: Vec<Vec<u8>> = split_list(&f[4], ",").iter().map(|n| unhex(n).unwrap()).collect();
             if build(&old).write_to_layer_dir(&layer).is_err() { return "err:io".into(); }
             if build(&new).write_to_layer_dir(&layer).is_err() { return "err:io".into(); }
@@ -114,6 +117,8 @@ const VALS: &[&[u8]] = &[b"", b"x", b"y\n", b"/bin:/usr/bin", b"\xfe\x00", b":"]
 const SCOPES: &[&str] = &["A", "B", "L", "P:776562", "P:776f726b6572", "P:6275696c64"];
 const BEHS: &[&str] = &["a", "d", "m", "o", "p"];
 const EXTRAS: &[&[u8]] = &[b"data.txt", b"env.other", b"envx", b"launch.toml", b".keep"];
+// unrelated *directories* of the layer, named like / near the env directories (never bin/lib/include/pkgconfig: those are C10's)
+const EXTRA_DIRS: &[&[u8]] = &[b"env.d", b"env.local", b"env.bak", b"env.launch.old", b"env.build.d", b"envs", b".env", b"conf", b"env.launch2", b"ENV", b"env.LAUNCH", b"env.build~", b"exec.d", b"env.sh.d"];
 
 fn ins_str(ins: &[Ins]) -> String { join(",", &ins.iter().map(|(s, b, n, v)| format!("{s}/{b}/{}/{}", hex(n), hex(v))).collect::<Vec<_>>()) }
 
@@ -128,7 +133,7 @@ fn generate(tier: &str, seed: u64, emit: &mut dyn FnMut(Case)) {
         let mut names: Vec<Vec<u8>> = new.iter().chain(old.iter()).map(|i| i.2.clone()).collect();
         names.push(b"UNRELATED".to_vec());
         let has_proc = new.iter().any(|i| i.0.starts_with("P:"));
-        Case { fields: vec!["W".into(), ins_str(old), ins_str(new), join(",", &extras.iter().map(|(k, v)| format!("{}={}", hex(k), hex(v))).collect::<Vec<_>>()), join(",", &names.iter().map(|n| hex(n)).collect::<Vec<_>>())],
+        Case { fields: vec!["W".into(), ins_str(old), ins_str(new), join(",", &extras.iter().map(|(k, v)| if let Some(r) = v.strip_prefix(b"@DIR") { if r.is_empty() { format!("{}=@", hex(k)) } else { format!("{}=@{}:{}", hex(k), hex(b"child.conf"), hex(r)) } } else { format!("{}={}", hex(k), hex(v)) }).collect::<Vec<_>>()), join(",", &names.iter().map(|n| hex(n)).collect::<Vec<_>>())],
             tags: vec![("kind".into(), kind.into()), ("proc".into(), u8::from(has_proc).to_string()), ("n_new".into(), new.len().to_string()), ("n_old".into(), old.len().to_string())],
             nontrivial: !old.is_empty() && !new.is_empty() }
     };
@@ -139,6 +144,12 @@ fn generate(tier: &str, seed: u64, emit: &mut dyn FnMut(Case)) {
         emit(mk_w(&old_full, &new, &[(b"data.txt".to_vec(), b"d".to_vec())], "exh1"));
         emit(mk_w(&[], &new, &[], "exh1"));
     } } }
+    // every unrelated directory name beside a write into every scope (and an empty new env)
+    for x in EXTRA_DIRS { for s in SCOPES {
+        let new = vec![(s.to_string(), "o".to_string(), b"A".to_vec(), b"v".to_vec())];
+        emit(mk_w(&old_full, &new, &[(x.to_vec(), b"@DIRk=v".to_vec()), (b"data.txt".to_vec(), b"d".to_vec())], "exh-extradirs"));
+        emit(mk_w(&new, &[], &[(x.to_vec(), b"@DIR".to_vec())], "exh-extradirs"));
+    } }
     // pairs of entries on one name (all behaviour pairs, scope pairs)
     if tier == "thorough" {
         for s1 in SCOPES { for s2 in SCOPES { for b1 in BEHS { for b2 in BEHS {
@@ -154,6 +165,7 @@ fn generate(tier: &str, seed: u64, emit: &mut dyn FnMut(Case)) {
         let new = gen_ins(&mut r, with_proc);
         let mut extras = vec![];
         for x in EXTRAS { if r.chance(1, 4) { extras.push((x.to_vec(), r.pick(VALS).to_vec())); } }
+        for x in EXTRA_DIRS { if r.chance(1, 8) { extras.push((x.to_vec(), if r.chance(1, 3) { b"@DIR".to_vec() } else { b"@DIRk=v".to_vec() })); } }
         emit(mk_w(&old, &new, &extras, "rndW"));
         // correlated pairs: the new env is the old one with some entries dropped / changed / added, so that whole scopes
         // are byte-identical between the two writes while others shrink or vanish
